@@ -20,7 +20,9 @@ PROPS = {
                 "known is non-empty, and the answer has >= 2 keys; distinct by hash of the canonical case",
         "trusted_base": [KERNEL, EXTRACT, HARNESS, MODELLED + " (Model/Scheme.v <-> indexing.rs missing_bindings/all_missing_bindings)"],
         "assumptions": COMMON_ASSUMPTIONS + ["HashSet membership modelled by list membership (no iteration order is observable here)"],
-        "explanation": "Theorems c12_* quantify over every key type, scheme, requested keys and known set; the correspondence check "
+        "explanation": "Theorems c12_* quantify over every key type, scheme, requested keys and known set: partial correctness (c12_missing_ok, c12_all_missing_ok: exactly the "
+                       "closure, no repetition, prerequisites first, nothing for known keys) and termination on every acyclic scheme (c12_missing_terminates, "
+                       "c12_all_missing_terminates: explicit fuel bound = weight of the requested keys); the correspondence check "
                        "compares the exact returned lists of the implementation with the extracted model.",
     },
     "C13": {
@@ -199,12 +201,14 @@ PROPS.update({
             "non-termination would show as the check's wall-clock timeout (reported as a broken obligation), stack exhaustion / allocation failure are not exhibited",
             "the harness is compiled once, in release mode with debug-assertions and overflow-checks on"],
         "timeout": 3000,
-        "explanation": "Strings and matrices, matching: Theorems c08_string_run_total / c08_matrix_run_total - on every automaton passing wf_check and arity_ok (matrices: and keys_nn; all evaluated on every dump) "
-                       "the modelled traversal never reaches a panic site and terminates (explicit fuel bound from a weight that decreases along the "
-                       "acyclic automaton), for every host. Component totality theorems (c08_*_partial) for the toposort and retain_keys. Construction, and "
-                       "matching on port graphs: panic/timeout exploration of every generated and degenerate case; Ok/Panic status of the "
+        "explanation": "Matching: Theorems c08_string_run_total / c08_matrix_run_total / c08_portgraph_run_total (+ c08_portgraph_run_no_panic) - on every automaton passing wf_check and arity_ok "
+                       "(matrices: and keys_nn; all evaluated on every dump) the modelled traversal never reaches a panic site and terminates (explicit fuel bound from a weight that "
+                       "decreases along the acyclic automaton; port graphs: the candidates of one bind_all are bounded because a root key offers at most one node per (known root, port)), "
+                       "for every host. Baselines: c08_{string,matrix}_single_total, c08_{string,matrix}_naive_total - the modelled get_all_bindings / NaiveManyMatcher terminate "
+                       "without panic on the constraints of every pattern (uses c12_*_terminates for the missing_bindings calls). Component totality theorems (c08_*_partial) for the "
+                       "toposort and retain_keys. Construction (the builder): panic/timeout exploration of every generated and degenerate case; Ok/Panic status of the "
                        "modelled traversal compared with the implementation on every dumped automaton.",
-        "technique": "catch_unwind + watchdog exploration over generated and degenerate inputs; Coq totality lemmas for components"},
+        "technique": "Coq totality theorems for matching (traversal on certified automata, baseline matchers) + catch_unwind / watchdog exploration of construction over generated and degenerate inputs"},
     "C10": {"subs": ["c10"], "level": "proof",
         "rule": "exhaustive: every ordered family of 1-3 not-equal sets over 3 (quick) / 4 (thorough) other keys on a common first key, each under "
                 "all 3^n node assignments; random: lists of 1-7 character constraints (strings, matrices), mixed port-graph constraint lists, "
